@@ -323,10 +323,18 @@ Init ==
   /\ hist = [b \in B |-> <<>>]
   /\ load = [c \in WorkLoadCons |-> [i \in 1..Len(P.cons[c].intervals) |-> 0]]
 
+\* one named disjunct per action, so that TLC's -coverage reports how often each one was taken
+StartSome   == \E t \in T : \E pk \in PickSets(t) : Start(t, pk)
+AcquireSome == \E u \in U : Acquire(u)
+JoinSome    == \E u \in U : Join(u)
+LeaveSome   == \E u \in U : Leave(u)
+ReleaseSome == \E u \in U : Release(u)
+EndSome     == \E t \in T : End(t)
+
 Next ==
-  \/ \E t \in T : \E pk \in PickSets(t) : Start(t, pk)
-  \/ \E u \in U : Acquire(u) \/ Join(u) \/ Leave(u) \/ Release(u)
-  \/ \E t \in T : End(t)
+  \/ StartSome
+  \/ AcquireSome \/ JoinSome \/ LeaveSome \/ ReleaseSome
+  \/ EndSome
   \/ Tick
   \/ Finish
 
